@@ -544,7 +544,10 @@ func builtinInPackage(env *LEnv, args *LVal) *LVal {
 		// builtin doesn't provide syntax to simply use lisp (calling
 		// ``lisp:use-package'' from a package that doesn't use lisp hard to
 		// remember).
-		env.UsePackage(Symbol(env.Runtime.Registry.Lang))
+		lerr := env.UsePackage(Symbol(env.Runtime.Registry.Lang))
+		if lerr.Type == LError {
+			return lerr
+		}
 	}
 	// Optional trailing doc strings
 	if len(args.Cells) > 1 {
@@ -579,7 +582,10 @@ func builtinExport(env *LEnv, args *LVal) *LVal {
 		case LSymbol, LString:
 			env.Runtime.Package.Exports(arg.Str)
 		case LSExpr:
-			builtinExport(env, arg)
+			lerr := builtinExport(env, arg)
+			if lerr.Type == LError {
+				return lerr
+			}
 		default:
 			return env.Errorf("argument is not a symbol, a string, or a list of valid types: %v", arg.Type)
 		}
